@@ -1,0 +1,34 @@
+// Copyright 2021-present The Atlas Authors. All rights reserved.
+// This source code is licensed under the Apache 2.0 license found
+// in the LICENSE file in the root directory of this source tree.
+
+//go:build verif
+
+// Package verifx re-exports internal planning helpers for the external
+// verification harness. It is compiled only with the "verif" build tag.
+package verifx
+
+import (
+	"ariga.io/atlas/sql/internal/sqlx"
+)
+
+type (
+	// Builder is sqlx.Builder.
+	Builder = sqlx.Builder
+	// SortOptions is sqlx.SortOptions.
+	SortOptions = sqlx.SortOptions
+)
+
+var (
+	DetachCycles      = sqlx.DetachCycles
+	SortChanges       = sqlx.SortChanges
+	CheckChangesScope = sqlx.CheckChangesScope
+	SetReversible     = sqlx.SetReversible
+	SingleQuote       = sqlx.SingleQuote
+	Unquote           = sqlx.Unquote
+	IsQuoted          = sqlx.IsQuoted
+	MayWrap           = sqlx.MayWrap
+	ReverseChanges    = sqlx.ReverseChanges
+	ChecksDiff        = sqlx.ChecksDiff
+	CommentChange     = sqlx.CommentChange
+)
